@@ -185,6 +185,19 @@ def run(ctx):
                                 "column": jcol, "float_matrix": float(r0[1]), "int64_small": r5[1:] if r5[0] != "ok" else float(r5[1]),
                                 "int64_large": r4[1:] if r4[0] != "ok" else float(r4[1]), "large_column": [int(v) for v in Dint[:, jcol]]})
                     ctx.violation("oracle", det, site="npc")
+        # ---- the same ranks stored in narrow / unsigned integer types (counts) or shifted to the bottom of a signed type
+        if ctx.rng.random() < 0.3 and all(0 <= int(v) <= 100 and int(v) == v for row in D for v in row):
+            dtn = ctx.rng.choice([np.uint8, np.uint16, np.uint32, np.uint64, np.int8, np.int16])
+            Dn = np.array(D, dtype=np.int64)
+            if np.issubdtype(dtn, np.signedinteger):
+                Dn[:, jcol] = Dn[:, jcol] + np.iinfo(dtn).min      # the column's smallest entries sit at the minimum of the type
+            Dn = Dn.astype(dtn)
+            r6 = guarded(npc.npc, np.array([float(t) for t in pv]), Dn, combine=(user if comb == "callable" else comb), plus1=plus1)
+            ctx.count("pair-rank-transform-" + np.dtype(dtn).name)
+            if r6[0] != "ok" or r6[1] != r0[1]:
+                det.update({"issue": "the same within-column ranks stored as " + np.dtype(dtn).name + " give another result than the float matrix",
+                            "float_matrix": float(r0[1]), "narrow": r6[1:] if r6[0] != "ok" else float(r6[1]), "stored_column": [int(v) for v in Dn[:, jcol]]})
+                ctx.violation("oracle", det, site="npc")
         if name != "liptak":
             ge, amb = npc_exact(pv, D, name, plus1)
             if k0 is None or not (ge + c - amb <= k0 <= ge + c):      # exact ties between different p-vectors may be lost in doubles, never gained
@@ -194,6 +207,38 @@ def run(ctx):
         if name != "liptak" and k0 is not None:
             if amb == 0:
                 ops.append(f"npc|{int(plus1)}|{name}|{rats(pv)}|{rows(D)}"); meta.append((det, Fr(k0, B + c)))
+    # ---- valid combining functions that are only defined on (0, 1] (NaN beyond 1): npc must return its value for every observed
+    #      vector in (0, 1]^n, also when an entry is above 0.9, and must not decrease when an entry is raised
+    for _ in range(ctx.n(150, 1500)):
+        B = ctx.rng.randint(2, 12); n = ctx.rng.randint(2, 4)
+        D = [[ctx.rng.randint(0, 6) for _ in range(n)] for _ in range(B)]
+        cname, cf = ctx.rng.choice([("sum sqrt(1-p)", lambda p: np.sum(np.sqrt(1 - np.asarray(p, dtype=float)))),
+                                    ("the library's liptak function object", npc.liptak),
+                                    ("-sum p / (2 - p)", lambda p: -np.sum(np.asarray(p, dtype=float) / (2 - np.asarray(p, dtype=float)))),
+                                    ("sum log(2 - p) sqrt(1 - p)", lambda p: np.sum(np.log(2 - np.asarray(p, dtype=float)) * np.sqrt(1 - np.asarray(p, dtype=float))))])
+        grid = [0.05, 0.3, 0.5, 0.8, 0.9, 0.91, 0.95, 0.99, 1.0]
+        pv = [ctx.rng.choice(grid) for _ in range(n)]
+        i_ = ctx.rng.randrange(n); pv[i_] = ctx.rng.choice([0.3, 0.8, 0.9]); hi_ = list(pv); hi_[i_] = ctx.rng.choice([0.91, 0.95, 0.999, 1.0])
+        Dn = np.array(D, dtype=float)
+        P = np.array([[np.sum(Dn[:, j] >= Dn[r_, j]) / B for j in range(n)] for r_ in range(B)])
+        def ref(v):
+            with np.errstate(all="ignore"):
+                st = np.array([cf(row) for row in P]); o = cf(np.array(v))
+            return int(np.sum(st > o + 1e-9)), int(np.sum(st >= o - 1e-9))
+        ra = guarded(npc.npc, np.array(pv), Dn.copy(), cf, False); rb = guarded(npc.npc, np.array(hi_), Dn.copy(), cf, False)
+        ctx.case(("partial-domain", cname, tuple(pv), tuple(hi_), tuple(map(tuple, D))), True); ctx.count("combiner-defined-on-(0,1]-only")
+        det = {"call": "npc", "combine": cname, "plus1": False, "pvalues": pv, "pvalues_with_one_entry_raised": hi_, "distr": D}
+        bad = None
+        for v_, r_ in ((pv, ra), (hi_, rb)):
+            if r_[0] != "ok":
+                bad = {"issue": "a valid combining function (non-increasing on (0,1]^n) is refused / fails for an observed vector in (0,1]^n", "vector": v_, "returned": r_[1:]}; break
+            lo_, up_ = ref(v_); k_ = numerator_of(r_[1], B)
+            if k_ is None or not (lo_ <= k_ <= up_):
+                bad = {"issue": "global p-value is not #{rows whose combined statistic >= observed}/B", "vector": v_, "returned": float(r_[1]), "bracket": [lo_, up_]}; break
+        if bad is None and float(rb[1]) < float(ra[1]) - 1e-12:
+            bad = {"issue": "raising one observed partial p-value decreased the global p-value", "before": float(ra[1]), "after": float(rb[1])}
+        if bad:
+            det.update(bad); ctx.violation("oracle", det, site="npc")
     # ---- combiner formulas and antitonicity
     for _ in range(ctx.n(300, 4000)):
         n = ctx.rng.randint(1, 6)
